@@ -16,7 +16,7 @@ CONSTANTS MaxLen, Mode, Pool, Cwd
 
 \* model FS: /etc /etc/ssl /usr /usr/local /usr/bin /root /bin -> usr/bin /sbin /boot /etcetera
 \*           /w (work dir) /w/real /w/real/sub /w/lnk_etc -> /etc  /w/lnk_real -> real
-\*           /w/lnk_up -> ..   /w/etcetera
+\*           /w/lnk_up -> ..   /w/etcetera   /w/lnk_via -> lnk_etc/../etc/newdb   /w/lnk_out -> lnk_etc/../boot2/x
 D == [kind |-> "dir", target |-> <<>>, abs |-> FALSE]
 L(t, a) == [kind |-> "link", target |-> t, abs |-> a]
 FS == (<<"etc">> :> D) @@ (<<"etc", "ssl">> :> D) @@ (<<"usr">> :> D) @@ (<<"usr", "local">> :> D)
@@ -25,6 +25,10 @@ FS == (<<"etc">> :> D) @@ (<<"etc", "ssl">> :> D) @@ (<<"usr">> :> D) @@ (<<"usr
       @@ (<<"w">> :> D) @@ (<<"w", "real">> :> D) @@ (<<"w", "real", "sub">> :> D)
       @@ (<<"w", "lnk_etc">> :> L(<<"etc">>, TRUE)) @@ (<<"w", "lnk_real">> :> L(<<"real">>, FALSE))
       @@ (<<"w", "lnk_up">> :> L(<<"..">>, FALSE)) @@ (<<"w", "etcetera">> :> D)
+      \* a relative link target that passes THROUGH another link and climbs out of it: physically /etc/newdb
+      \* (lnk_etc -> /etc, `..` is the parent of /etc), lexically w/etc/newdb
+      @@ (<<"w", "lnk_via">> :> L(<<"lnk_etc", "..", "etc", "newdb">>, FALSE))
+      @@ (<<"w", "lnk_out">> :> L(<<"lnk_etc", "..", "boot2", "x">>, FALSE))
 
 \* ---- lexical cleaning (filepath.Clean / Abs) ----
 RECURSIVE Clean(_, _)
